@@ -51,6 +51,11 @@ pub fn build_tree(root: &Path, nodes: &Value) {
             "l" => {
                 std::os::unix::fs::symlink(real_target(root, &bytes_of(&n["t"])), &p).unwrap();
             }
+            // a named pipe: neither regular file, directory nor symlink (a socket or device node behaves alike for unlink)
+            "p" => {
+                let c = std::ffi::CString::new(p.as_os_str().as_bytes()).unwrap();
+                assert_eq!(unsafe { libc::mkfifo(c.as_ptr(), 0o644) }, 0, "mkfifo");
+            }
             k => panic!("kind {k}"),
         }
     }
@@ -92,7 +97,8 @@ fn snap_rec(root: &Path, dir: &Path, comps: &mut Vec<Vec<u8>>, out: &mut Vec<Val
             if !readable {
                 let _ = fs::set_permissions(&p, fs::Permissions::from_mode(fmode | 0o400));
             }
-            let c = fs::read(&p).unwrap_or_default();
+            // special files (FIFOs ...) are snapshotted as empty files: never opened (that would block)
+            let c = if m.file_type().is_file() { fs::read(&p).unwrap_or_default() } else { vec![] };
             if !readable {
                 let _ = fs::set_permissions(&p, fs::Permissions::from_mode(fmode));
             }
